@@ -9,6 +9,10 @@ P = {
          'Theorems for every assignment accepted by greedy_ok_b (hence every tie-break variant): completeness and confinement to one group, colocation, non-increasing processing order, least-loaded group / least-loaded worker at every placement, worker-load and group-load balance bounds by the largest item, for all disjoint groups and non-negative integer costs. Tie: the implementation output is accepted by the extracted checker on every generated case (fast path equality with the extracted deterministic greedy); purity checked by repeated calls, argument snapshots and different hash seeds.',
          'Coq kernel; extraction + driver; integer costs (float rounding of non-integer costs not modelled); processing order among tied layers fixed to the stable order. Closed under the global context.',
          'DESIGN.md §4 C17'),
+ 'C01': (True, 'Coq proof over the reals of the preconditioning identities (inverse and eigen method, pre-divided eigenvalues, PSD projection, uniqueness, weight|bias layout) for all dimensions + correspondence of step() with the IEEE-double reading of the same extracted terms',
+         'Theorems over R for all m x n and all entries: with a right inverse of G+damping*I and a left inverse of A+damping*I, V = Ginv D Ainv solves (G+damping I) V (A+damping I) = D; with orthogonal Qg, Qa and damping > 0, V = Qg((Qg^T D Qa)/(dg+ x da+ + damping))Qa^T solves G+ V A+ + damping V = D where G+ = Qg diag(max(dg,0)) Qg^T; the pre-divided variant computes the same V; for non-negative eigenvalues G+ = Q diag(d) Q^T; the solution is unique; split/combine of the weight|bias layout are inverse to each other. Tie: single-process steps on Linear (2-d and N-d inputs) and Conv2d layers, both methods, pre-division, 3 dtypes axes, factors from real passes or injected with prescribed (also rank-deficient) spectra, plus multi-rank runs under simdist (worlds 2-4, all strategies, symmetric on/off): gradients after step() compared with nu*V computed by the extracted terms in IEEE doubles with float64 LAPACK oracles whose contracts (orthogonality, inverse residual) are checked; tolerance 64*eps32*kappa; independent oracle = float64 residual of the defining system.',
+         'Coq kernel; standard-library real-number axioms (sig_forall_dec, sig_not_dec, functional_extensionality_dep); extraction + driver (IEEE-double instance of the arithmetic record); rounding not modelled (empirical tolerance); eigh/inv are oracles with run-time-checked contracts; second-order data staleness is C05.',
+         'DESIGN.md §4 C01'),
  'C03': (True, 'Coq proof of deadlock-freedom and completion for every program that is a projection of one global collective order (Coll semantics, every interleaving, every wait placement) + verified global-order checker run on the call logs of the unmodified preconditioner under simdist',
          'Theorems (Coll: asynchronous issue, blocking wait, per-group FIFO matching): if the issues of every rank are the projection of one global instance list and every wait follows its issue, then in every state (any interleaving) some unfinished rank is enabled, no state is stuck before all ranks finish, every state can be run to completion, all members of a group issue the same sequence with equal metadata, nobody issues on a foreign group; the boolean checker proj_ok_b is sound (it constructs the global order; roots are members); crossed waits with per-group matching only do deadlock (Example). Tie: random K-FAC configurations x histories (construction, hooks, steps under constant/callable intervals, accumulation, bucketed/unbucketed, symmetric, state_dict/memory_usage on subsets, load_state_dict into a fresh object) x 3 schedules: logs accepted by the extracted checker, identical across schedules, runs complete with no mismatch/foreign group/non-member root/deadlock. PARTIAL: that the K-FAC control logic always produces such projections (kfac_proj for all configurations) is not a theorem; it is established per observed run.',
          'Coq kernel; extraction + driver; simdist fidelity to NCCL/gloo semantics; wait-after-issue holds by API construction; real transport time-outs outside the model. Closed under the global context.',
